@@ -7,6 +7,11 @@ from io import BytesIO
 import codecgen as G
 
 
+# header and parameter values both readers derive and keep in their state (compared at every picture)
+PARAM_KEYS = ["video_parameters", "luma_depth", "color_diff_depth", "picture_coding_mode", "major_version", "minor_version", "profile", "level",
+              "slice_bytes_numerator", "slice_bytes_denominator", "slice_prefix_bytes", "slice_size_scaler"]
+
+
 def validate_capturing(data):
     """REAL validator with picture_decode wrapped in-process: -> (verdict, [snapshot per decoded picture])"""
     from vc2_conformance import decoder
@@ -18,7 +23,7 @@ def validate_capturing(data):
             importlib.import_module("vc2_conformance.decoder.fragment_syntax")]
     saved = [(m, m.picture_decode) for m in mods if hasattr(m, "picture_decode")]
     keys = ["luma_width", "luma_height", "color_diff_width", "color_diff_height", "dwt_depth", "dwt_depth_ho", "slices_x", "slices_y",
-            "wavelet_index", "wavelet_index_ho", "picture_number", "parse_code"]
+            "wavelet_index", "wavelet_index_ho", "picture_number", "parse_code"] + PARAM_KEYS
 
     def make(orig):
         def wrapped(state):
@@ -69,16 +74,17 @@ def pictures_of(ctx):
                 wt = du["picture_parse"]["wavelet_transform"]
                 td = wt["transform_data"]
                 out.append((du["picture_parse"]["picture_header"]["picture_number"], wt["transform_parameters"],
-                            list(td.get("hq_slices", td.get("ld_slices", []))), code))
+                            list(td.get("hq_slices", td.get("ld_slices", []))), code, td.get("_state")))
             elif "fragment_parse" in du:
                 fp = du["fragment_parse"]
                 fh = fp["fragment_header"]
                 if fh["fragment_slice_count"] == 0:
-                    cur = [fh["picture_number"], fp["transform_parameters"], [], code]
+                    cur = [fh["picture_number"], fp["transform_parameters"], [], code, None]
                     out.append(cur)
                 else:
                     fd = fp["fragment_data"]
                     cur[2].extend(fd.get("hq_slices", fd.get("ld_slices", [])))
+                    cur[4] = fd.get("_state")
     return [tuple(p) for p in out], units
 
 
@@ -224,7 +230,10 @@ def violates(data):
     pics, units = pictures_of(ctx)
     if len(pics) != len(snaps):
         return "the deserialiser sees %d pictures, the validator decoded %d" % (len(pics), len(snaps)), "accepted"
-    for i, ((num, tp, slices, code), snap) in enumerate(zip(pics, snaps)):
+    for i, ((num, tp, slices, code, dstate), snap) in enumerate(zip(pics, snaps)):
+        for k in PARAM_KEYS:
+            if dstate is not None and k in snap and k in dstate and dstate[k] != snap[k]:
+                return "picture %d: the deserialiser holds %s = %r, the validator %r" % (i, k, dstate[k], snap[k]), "accepted"
         if num != snap.get("picture_number"):
             return "picture %d: numbers differ (%s vs %s)" % (i, num, snap.get("picture_number")), "accepted"
         if len(slices) != snap["slices_x"] * snap["slices_y"]:
